@@ -24,8 +24,16 @@ def run_property(prop: str, tier: str, ix: Index = None, write_evidence=True, qu
     ctx = Ctx(prop, ix, tier)
     mod.run(ctx)
     extra = None
-    if tier == "thorough" and hasattr(mod, "thorough_extra"):
-        extra = mod.thorough_extra(ctx)
+    if tier == "thorough" and write_evidence and os.environ.get("PVA_NO_THOROUGH_EXTRA") != "1":
+        from .thorough import thorough_extra
+        extra = thorough_extra(prop, ctx)
+        if not quiet:
+            w, sl = extra["witnesses"], extra["silence"]
+            print(f"{prop} [thorough] witnesses: {w['breaking_detected']}/{w['breaking_applied']} breaking edits reported, "
+                  f"{w['twins_silent']}/{w['twins_applied']} twins silent; silence under refactoring: {sl['silent']} variants silent, "
+                  f"{sl['false-alarm']} false alarms, {sl['analysis-error']} analysis errors ({len(sl['files'])} files x {len(sl['transforms'])} transforms)")
+            for pr in (w["missed"] + w["false_alarms"] + sl["problems"])[:10]:
+                print("   checker self-test:", pr)
     rc = finish(ctx, getattr(mod, "FLOORS", {}), mod.EXPLANATION, mod.LEVEL_RULE, t0, seed,
                 write_evidence=write_evidence, extra_cov=extra, quiet=quiet)
     return rc, ctx
